@@ -299,14 +299,28 @@ def check_slots(ctx):
             ('self.descriptor', 'real_field_name'): {'self.field_name', "fmt('_described_{}', %s)" % P}}
     seen_described = False
     missing = None
-    for p in repo.walker(max_paths=ctx.max_paths).paths(dy.node, cls=fld):
+    w_dy = repo.walker(max_paths=ctx.max_paths)
+    w_dy.read_heap = True       # self.descriptor_name = self.field_name reads what the statement before stored
+    for p in w_dy.paths(dy.node, cls=fld):
         if p.raises() or 'self.descriptor' not in gtexts(p):
             continue
         seen_described = True
         got = {}
+        cur_ = {}
         for e in p.effects:
             if e.kind == 'store_attr':
-                got[(canon(e.obj), e.name)] = {canon(e.value)} | ({canon(e.raw)} if e.raw is not None else set())
+                vals = {canon(e.value)} | ({canon(e.raw)} if e.raw is not None else set())
+                # what the field's own attributes held when the value was computed (the method calls
+                # on the way set other attributes: aligned() does not rename the field)
+                for v_ in list(vals):
+                    r_ = v_
+                    for k_, cv_ in cur_.items():
+                        r_ = r_.replace(k_, cv_)
+                    vals.add(r_)
+                got[(canon(e.obj), e.name)] = vals
+                if canon(e.obj) == 'self' and e.name in ('field_name', 'descriptor_name'):
+                    best = sorted(vals, key=lambda t: ('self.' in t, len(t)))[0]
+                    cur_['self.%s' % e.name] = best
         miss = ['%s.%s' % k for k, v in want.items() if not (got.get(k, set()) & v)]
         if miss:
             missing = miss
